@@ -923,8 +923,21 @@ def _nullable_sites(prog, producer, rule_ctx, what, named_exceptions=(), in_rang
                             loc=f.loc(c))
                 continue
             par = f.nodes.get(f.parent.get(c["id"]))
-            while par is not None and par["k"] == "cast":
+            cur_ = c
+            # through casts and the arms of `x ? producer(..) : other`
+            self_guarded = False
+            while par is not None and (par["k"] == "cast" or (
+                    par["k"] == "cond" and not any(y["id"] == cur_["id"] for y in walk(par["c"])))):
+                if par["k"] == "cond":
+                    cc_, tt_ = negate_truth(par["c"], True)
+                    in_t = any(y["id"] == cur_["id"] for y in walk(par["t"]))
+                    if key(strip_casts(cc_)) == key(c) and (in_t == tt_):
+                        self_guarded = True       # x ? x : default
+                cur_ = par
                 par = f.nodes.get(f.parent.get(par["id"]))
+            if self_guarded:
+                rule_ctx.ok(f.name, "%s result used only when it is not NULL (`x ? x : ..`)" % producer, loc=f.loc(c))
+                continue
             var = None
             if par is not None and par["k"] == "var":
                 var = par["name"]
@@ -989,6 +1002,13 @@ def rule_B10(ctx):
     n = _nullable_sites(ctx.prog, "reg_get", ctx, "unset register is not dereferenced")
     if n < 10:
         ctx.broken("only %d reg_get call sites" % n)
+
+
+def rule_B14(ctx):
+    ctx.begin("B14", floor=5, what="uses of ex_pathexpand results")
+    n = _nullable_sites(ctx.prog, "ex_pathexpand", ctx, "unexpandable path is not dereferenced")
+    if n < 5:
+        ctx.broken("only %d ex_pathexpand call sites" % n)
 
 
 def _index_in_buffer(prog, f, call, idx_expr):
@@ -1882,4 +1902,4 @@ def rule_B3(ctx):
         ctx.broken("only %d allocation writes proven" % n_ok)
 
 
-RULES = {"I1": rule_I1, "B9": rule_B9, "B11": rule_B11, "B1": rule_B1, "B2": rule_B2, "B3": rule_B3, "B4": rule_B4, "B5": rule_B5, "B6": rule_B6, "B10": rule_B10, "P1": rule_P1}
+RULES = {"I1": rule_I1, "B9": rule_B9, "B11": rule_B11, "B1": rule_B1, "B2": rule_B2, "B3": rule_B3, "B4": rule_B4, "B5": rule_B5, "B6": rule_B6, "B10": rule_B10, "P1": rule_P1, "B14": rule_B14}
